@@ -7,7 +7,7 @@
    the pair round-trips: every non-NaN value and the canonical NaN). *)
 From Coq Require Import List NArith ZArith Bool.
 From NV Require Import Base.Percent Base.PercentProofs Text.TextBase Vcf.Values Vcf.ValuesProofs
-  Vcf.GenotypeProofs Vcf.SampleProofs Vcf.Span Vcf.Record Vcf.SpanProofs.
+  Vcf.GenotypeProofs Vcf.SampleProofs Vcf.Span Vcf.Record Vcf.SpanProofs Vcf.Line Vcf.LineProofs.
 Import ListNotations.
 Open Scope N_scope.
 
@@ -91,8 +91,107 @@ Theorem c09_record_roundtrip_partial :
 Proof. exact sample_column_roundtrip. Qed.
 Print Assumptions c09_record_roundtrip_partial.
 
-(* the full statement, over a whole-record writer and the two readers (not proved: no Gallina
-   model of the fixed columns and of the header-directed assembly in this revision) *)
+(* The whole record LINE (NV.Vcf.Line: write_record with all eight fixed columns, FORMAT keys and
+   sample columns; parse_record_buf; the lazy vcf::Record with every accessor forced).  Every
+   record of rec_ok that the writer accepts is read back by BOTH readers as canon of the record
+   (REF bases resolved the way the writer resolves them, first genotype phasing derived before
+   4.4, a sample that is "." as a whole read as a sample without values), the lazy record does
+   not hit the known accessor panic, and the re-read record has the written record's span.
+   rec_ok lists what the writer does not check itself: IDs non-empty / not the lone "." / distinct,
+   REF non-empty, ALT and FILTER not [""] or ["."], QUAL in FOK, INFO keys distinct and values of
+   the key's effective definition (or Flag / String under an undefined key), the sample count of
+   the header, FORMAT keys present and distinct, values fitting a prefix of the keys and no sample
+   written as an empty column.  The witnesses below show these conditions are needed. *)
+Theorem c09_record_line_roundtrip :
+  forall fmt_float prs_float (FOK : N -> Prop),
+  (forall b, FOK b -> prs_float (fmt_float b) = Some b) ->
+  (forall b x, FOK b -> In x (fmt_float b) -> x <> 44 /\ x <> 9 /\ x <> 10 /\ x <> 59 /\ x <> 58) ->
+  (forall b, FOK b -> fmt_float b <> dot) ->
+  (forall b, FOK b -> fmt_float b <> []) ->
+  forall h r t,
+  rec_ok fmt_float FOK h r -> write_line fmt_float h r = Some t ->
+  read_eager prs_float h t = Some (canon h r) /\
+  read_lazy prs_float h t = Some (canon h r) /\
+  lazy_panics t = false.
+Proof. exact line_roundtrip. Qed.
+Print Assumptions c09_record_line_roundtrip.
+
+Theorem c09_record_line_span :
+  forall fmt_float prs_float (FOK : N -> Prop),
+  (forall b, FOK b -> prs_float (fmt_float b) = Some b) ->
+  (forall b x, FOK b -> In x (fmt_float b) -> x <> 44 /\ x <> 9 /\ x <> 10 /\ x <> 59 /\ x <> 58) ->
+  (forall b, FOK b -> fmt_float b <> dot) ->
+  (forall b, FOK b -> fmt_float b <> []) ->
+  forall h r t v45,
+  rec_ok fmt_float FOK h r -> write_line fmt_float h r = Some t ->
+  exists re rl, read_eager prs_float h t = Some re /\ read_lazy prs_float h t = Some rl /\ re = rl /\
+    rec_end v45 re = rec_end v45 r /\ rec_span v45 re = rec_span v45 r /\
+    rec_end v45 rl = rec_end v45 r /\ rec_span v45 rl = rec_span v45 r.
+Proof. exact line_span_roundtrip. Qed.
+Print Assumptions c09_record_line_span.
+
+(* canon is the identity on records whose REF is made of A C G T N (either case), whose samples
+   are not the single missing value, and (before 4.4) whose genotypes carry the derived first
+   phasing: what canon changes, exactly *)
+Theorem c09_canon_spec : forall h r,
+  r_chrom (canon h r) = r_chrom r /\ r_pos (canon h r) = r_pos r /\ r_ids (canon h r) = r_ids r /\
+  r_ref (canon h r) = map canon_base (r_ref r) /\ r_alts (canon h r) = r_alts r /\
+  r_qual (canon h r) = r_qual r /\ r_filters (canon h r) = r_filters r /\
+  r_info (canon h r) = r_info r /\ r_keys (canon h r) = r_keys r /\
+  r_samples (canon h r) = map (canon_row (h_v44 h)) (r_samples r).
+Proof. intros. repeat split. Qed.
+Print Assumptions c09_canon_spec.
+
+(* records the writer accepts outside rec_ok (vm_compute witnesses, each reproduced on the
+   implementation by `line` cases): an ID "." comes back as no ID and REF "R" as "A"; an empty REF
+   is written as an empty column that the eager reader rejects while the lazy record returns it;
+   samples without FORMAT keys are written ". . ." and come back as two samples (eager) / none
+   (lazy) *)
+Theorem c09_line_witnesses :
+  (exists r t, write_line w_fmt (h0 0) r = Some t /\ r_ids r = [dot] /\
+     read_eager w_prs (h0 0) t = Some r0 /\ read_lazy w_prs (h0 0) t = Some r0) /\
+  (exists r t, write_line w_fmt (h0 0) r = Some t /\
+     read_eager w_prs (h0 0) t = None /\ read_lazy w_prs (h0 0) t = Some r) /\
+  (exists r t, write_line w_fmt (h0 2) r = Some t /\ length (r_samples r) = 2%nat /\
+     read_eager w_prs (h0 2) t = Some r /\ read_lazy w_prs (h0 2) t = Some r0).
+Proof.
+  split; [|split].
+  - destruct witness_id_dot as (t & A & B & C). eexists; exists t.
+    split; [exact A|]. split; [reflexivity|]. split; assumption.
+  - destruct witness_empty_ref as (t & A & B & C). eexists; exists t.
+    split; [exact A|]. split; assumption.
+  - destruct witness_format_missing as (t & A & B & C). eexists; exists t.
+    split; [exact A|]. split; [reflexivity|]. split; assumption.
+Qed.
+Print Assumptions c09_line_witnesses.
+
+(* KNOWN DEFECT lazy-record-cr-before-empty-last-column-panic: a line whose INFO column ends with
+   CR and is followed by TAB LF makes the lazy record's info()/samples() panic (the eager reader
+   reads it, and so does the lazy one when the terminator is CR LF); no written line is in this
+   class (c09_record_line_roundtrip) *)
+Theorem c09_lazy_panic_refuted :
+  exists line, lazy_panics line = true /\ read_lazy_p w_prs (h0 0) (line ++ [10]) = Panic /\
+    (exists rl, read_lazy_p w_prs (h0 0) (line ++ [13; 10]) = Ok rl) /\
+    exists re, read_eager w_prs (h0 0) line = Some re.
+Proof. eexists. exact witness_lazy_panic. Qed.
+Print Assumptions c09_lazy_panic_refuted.
+
+(* VCF 4.5 span: exactly where INFO SVLEN decides the end (the input class of the known finding
+   vcf45-svlen-end-one-base-short-of-spec, property C04): without FORMAT LEN and with largest
+   SVLEN entry m the end is start + max(|REF|, m) - 1 -- start + m - 1 when m >= |REF|, the REF
+   end when m < |REF|; before 4.5 SVLEN never enters variant_end *)
+Theorem c09_v45_svlen_span : forall r l m,
+  si_reflen r <> 0 -> si_svlen r = Some (Some (VIntArr l)) -> max_lens l None = Ok (Some m) ->
+  si_len r = None -> start_of r + (N.max (si_reflen r) m - 1) <= usize_max ->
+  variant_end true r = Ok (start_of r + (N.max (si_reflen r) m - 1)) /\
+  (si_reflen r <= m -> variant_end true r = Ok (start_of r + (m - 1))) /\
+  (m < si_reflen r -> variant_end true r = Ok (start_of r + (si_reflen r - 1))).
+Proof. exact v45_end_svlen. Qed.
+Print Assumptions c09_v45_svlen_span.
+
+(* the remaining full statement: over ALL records the writer accepts (c09_record_line_roundtrip
+   proves it for rec_ok; c09_line_witnesses shows it fails outside) and with the header as a
+   parsed value rather than the lookup tables of hctx *)
 Definition c09_record_roundtrip_full_statement
   (header record text : Type) (consistent : header -> record -> Prop)
   (write_record : header -> record -> option text)
@@ -155,6 +254,22 @@ Theorem c09_empty_sample_roundtrip : forall fmt prs v44 ds,
   parse_sample_eager prs ds dot = Some [] /\ parse_sample_lazy prs ds dot = Some [].
 Proof. exact empty_sample_roundtrip. Qed.
 Print Assumptions c09_empty_sample_roundtrip.
+
+(* non-vacuity of rec_ok / write_line: a record with every column populated *)
+Example c09_example_line :
+  let h := {| h_v44 := false; h_infos := [([68; 80], (NCount 1, TInteger))];
+              h_formats := [([68; 80], (NCount 1, TInteger))]; h_nsamples := 1 |} in
+  let r := {| r_chrom := [99]; r_pos := 5; r_ids := [[114; 115]]; r_ref := [65; 82]; r_alts := [[67]];
+              r_qual := None; r_filters := [s_pass]; r_info := [([68; 80], Some (VInteger 7%Z))];
+              r_keys := [key_gt; [68; 80]];
+              r_samples := [[Some (VGenotype [(Some 0, false); (Some 1, false)]); Some (VInteger 3%Z)]] |} in
+  write_line w_fmt h r =
+    Some [99; 9; 53; 9; 114; 115; 9; 65; 65; 9; 67; 9; 46; 9; 80; 65; 83; 83; 9; 68; 80; 61; 55; 9;
+          71; 84; 58; 68; 80; 9; 48; 47; 49; 58; 51] /\
+  read_eager w_prs h [99; 9; 53; 9; 114; 115; 9; 65; 65; 9; 67; 9; 46; 9; 80; 65; 83; 83; 9; 68; 80; 61; 55; 9;
+                      71; 84; 58; 68; 80; 9; 48; 47; 49; 58; 51] = Some (canon h r) /\
+  r_ref (canon h r) = [65; 65].
+Proof. vm_compute. repeat split. Qed.
 
 (* non-vacuity *)
 Example c09_example_string :
